@@ -188,9 +188,16 @@ def run(res, tier, lean, prop="C01", proof_breaks=(), build_log=""):
         # a nested burst during which the directory about to be watched vanishes just before the k-th follow-up
         # inotify_add_watch - every k of the burst's watch calls (quick: the first four); whatever survives must be covered
         plan += [("fault", k) for k in ((1, 2, 3, 4, 5, 6) if thorough else (1, 2, 3, 4))]
+    if prop == "C07":
+        # a directory tree leaves the watched tree; while the library drops its watches the k-th inotify_rm_watch finds the
+        # watch already gone (EINVAL): the emitter must survive and keep reporting
+        plan += [("rmfault", k) for k in (1, 2, 3)]
     for i, what in enumerate(plan):
         init_b, bursts = pipe.gen_bursts(r, r.randint(3, 6))
-        if what is not None:
+        if what is not None and what[0] == "rmfault":
+            init_b = [("mkdir", "W/d"), ("mkdir", "W/d/dd"), ("mkdir", "W/d/dd/d"), ("mkdir", "W/a")]
+            bursts = [[("rename", "W/d", "O/x")], [("create", "W/a/b")], [("create", "O/x/dd/a")]]
+        elif what is not None:
             init_b = [("mkdir", "W/d")]
             bursts = [[("mkdir", "W/n"), ("mkdir", "W/n/a"), ("mkdir", "W/n/b"), ("mkdir", "W/n/d"), ("mkdir", "W/n/dd"),
                        ("create", "W/n/dd/b"), ("mkdir", "W/n/dd/d"), ("create", "W/n/f")],
@@ -199,11 +206,16 @@ def run(res, tier, lean, prop="C01", proof_breaks=(), build_log=""):
         full = r.random() < 0.25
         small = r.random() < 0.4
         vanish = None
-        if what is not None:
+        rmf = None
+        if what is not None and what[0] == "rmfault":
+            rmf = what[1]
+        elif what is not None:
             vanish = what[1]
         elif prop == "C07" and i % 2 == 1:
             vanish = r.randint(1, 6)        # a directory vanishes just before the k-th follow-up inotify_add_watch
-        out = pipe.run_bursts(init_b, bursts, recursive=recursive, full=full, small_reads=small, vanish_at=vanish)
+        out = pipe.run_bursts(init_b, bursts, recursive=recursive, full=full, small_reads=small, vanish_at=vanish, rm_fault_at=rmf)
+        if rmf is not None and out["rm_faults"]:
+            res.bump("transient_rm_watch_faults_injected")
         if out["timeout"] and not out["thread_errors"]:
             raise RuntimeError("drain timeout in a burst (machine stalled?)")
         burst_runs.append((init_b, bursts, recursive, full, small, vanish, out))
